@@ -221,7 +221,7 @@ PROPS = {
                               "mptcore/array/array_push.c", "mptcore/array/array_message.c", "mptcore/message/message_append.c"],
         "rules": [
             {"run": rules_path.run_snprintffit, "floor": 1, "use_anchor_files": True},
-            {"run": rules_lin.run_linbuf, "floor": 60, "use_anchor_files": True, "ctx": {"only_dir": "mptcore/array/", "cxx_files": []}},
+            {"run": rules_lin.run_linbuf, "floor": 60, "use_anchor_files": True, "ctx": {"only_dir": "mptcore/array/", "cxx_files": ["mpt++/array.cpp"]}},
             {"run": rules_cow.run, "floor": 20, "use_anchor_files": True},
             {"run": rules_cow.run_sliceoff, "floor": 2, "use_anchor_files": True},
             {"run": rules_path.run_nullcontra, "floor": 60, "use_anchor_files": True},
